@@ -261,6 +261,9 @@ def objective_events(ref: dict, seed, count: int) -> list[dict]:
         # consecutive evaluations alternate between two fluids at a bit-identical initial pressure (two wells of one field)
         pvt = tables[i % 2]
         n = int(rng.integers(8, 60))
+        gi_obj = i + (int(seed[2]) if isinstance(seed, (list, tuple)) and len(seed) > 2 else 0)
+        if gi_obj % 48 == 5:
+            n = 3300   # a long daily history (about nine years): the objective is still the library's own simulation of it
         days = np.arange(n, dtype=float) if rng.random() < 0.6 else np.concatenate([[0.0], np.cumsum(rng.uniform(0.3, 3.0, n - 1))])
         tau_g, m_g, p_g = rng.uniform(20.0, 400.0), 10 ** rng.uniform(2, 5), rng.uniform(4000.0, 12000.0)
         if i % 2 == 1 and p_prev is not None:
@@ -319,6 +322,10 @@ def make_table(rng, ref, pvt, wellformed_rows: int = 18):
     return {"tau": tau_g, "M": m_g, "p_initial": p_g}, days, gas, pf
 
 
+def gi_row(seed, i: int) -> int:
+    return i + (int(seed[2]) if isinstance(seed, (list, tuple)) and len(seed) > 2 else 0)
+
+
 def fit_events(ref: dict, seed, count: int) -> list[dict]:
     rng = np.random.default_rng(seed)
     pvt = pvt_table()
@@ -333,9 +340,14 @@ def fit_events(ref: dict, seed, count: int) -> list[dict]:
         idx = rng.permutation(np.arange(1, n0 - 1))
         gas[idx[:nz]] = 0.0
         pres[idx[nz:nz + nm]] = np.nan
-        prod = relabel(pd.DataFrame({"Days": days * 1.0 + 100.0, "Gas": gas, "Pressure": pres, "Extra": 1.0}),
-                       i + (int(seed[2]) // 3 if isinstance(seed, (list, tuple)) and len(seed) > 2 else 0))
         window = [None, 1, 3][int(rng.integers(3))]
+        extra = np.ones(n0)
+        if gi_row(seed, i) % 3 == 1:
+            extra[rng.permutation(n0)[: max(2, n0 // 5)]] = np.nan   # another metered column with gaps of its own
+        if gi_row(seed, i) % 5 == 2 and window in (None, 1):
+            pres = pres.astype(np.float32)                           # a pressure gauge logged in single precision
+        prod = relabel(pd.DataFrame({"Days": days * 1.0 + 100.0, "Gas": gas, "Pressure": pres, "Water": extra}),
+                       i + (int(seed[2]) // 3 if isinstance(seed, (list, tuple)) and len(seed) > 2 else 0))
         n_iter = [1, 4, 20][i % 3] if (i // 3) % 2 == 0 else [20, 1, 4][i % 3]
         pimax = float(rng.choice([12000.0, 13000.0, 13900.0]))
         inplace = float(rng.choice([1e5, 3e5]))
